@@ -8,6 +8,8 @@ pub fn dispatch(kind: u32, v: &Val) -> Option<Val> {
         201 => Some(run_reader(v, true)),
         202 => Some(run_reader(v, false)),
         203 => Some(run_reader_twice(v)),
+        204 => Some(run_reader_any(v, false)),
+        205 => Some(run_reader_any(v, true)),
         _ => None,
     }
 }
@@ -82,5 +84,26 @@ pub fn run_reader_twice(v: &Val) -> Val {
     let mut sink = LogSink::new(decode_reply(v.fld(3)));
     let rdr = ScriptedReader { rest: input, at: 0, hist: decode_hist(v.fld(6)) };
     let r = searcher.search_reader(&m, rdr, &mut sink);
+    result_val(r, sink)
+}
+
+/// kinds 204 / 205: search_reader with whatever strategy the Searcher picks (also the multi-line one, which
+/// reads the whole input into a heap buffer that the Searcher keeps between searches), by a fresh Searcher
+/// (204) or by one that has already searched another input (205).  case: (cfg matcher input reply)
+pub fn run_reader_any(v: &Val, reused: bool) -> Val {
+    let cfg = decode_cfg(v.fld(0));
+    let m = decode_matcher(&cfg, v.fld(1));
+    let input = v.fld(2).bytes();
+    let mut searcher = searcher_builder(&cfg).build();
+    if reused {
+        let mut first = input.clone();
+        first.extend_from_slice(b"ab");
+        first.push(line_term(&cfg).as_byte());
+        first.extend_from_slice(b"b");
+        let mut sink0 = LogSink::new(Reply { at: None });
+        let _ = searcher.search_reader(&m, ScriptedReader { rest: first, at: 0, hist: Default::default() }, &mut sink0);
+    }
+    let mut sink = LogSink::new(decode_reply(v.fld(3)));
+    let r = searcher.search_reader(&m, ScriptedReader { rest: input, at: 0, hist: Default::default() }, &mut sink);
     result_val(r, sink)
 }
